@@ -106,7 +106,7 @@ theorem kstep_pend {cfg : Cfg} (fuel : Nat) {s : KS} {a : A} {q : QEntry ℚ} {r
         | done => rw [hrun] at htok0; exact triggerGet_none _ 0 _ htok0
         | running => rw [hrun] at htok0; exact triggerGet_none _ 0 _ htok0
     refine ⟨openEvent s q rest, { aTick a q.time with pend := a.pend.erase q }, [], [], ?_, ⟨h0, hc0⟩, hiBase hr, rfl,
-      by simp [aTick]⟩
+      by simp [aTick], fun x hx => by cases hx⟩
     rw [hstep, htg]
     exact closeEvent_ok (hcur.2.1.trans hpe.2.2)
   cases hrun : a.run with
@@ -140,7 +140,8 @@ theorem kstep_pend {cfg : Cfg} (fuel : Nat) {s : KS} {a : A} {q : QEntry ℚ} {r
       let Sh : Sender ℚ := { (aTick a q.time).S with tokens := n, proc := .runnable }
       refine ⟨handSt (openEvent s q rest) g (List.replicate n 1),
         { aTick a q.time with pend := a.pend.erase q, run := .handed g t0 qh, S := Sh },
-        [.handoff], [], ?_, ⟨h1, by cells_same hk.c⟩, ?_, ?_, by simp [aTick]⟩
+        [.handoff], [], ?_, ⟨h1, by cells_same hk.c⟩, ?_, ?_, by simp [aTick],
+        fun x hx => by simp only [List.mem_singleton] at hx; subst hx; trivial⟩
       · rw [hstep, htg]
         have hfr := handSt_frame (openEvent s q rest) g (List.replicate n 1)
         have : ((handSt (openEvent s q rest) g (List.replicate n 1)).ev q.ev).out = okNone := by
